@@ -662,6 +662,12 @@ impl ErasedList {
     pub fn len(&self) -> usize {
         #[cfg(roto_verif)]
         crate::verif::sched::point("acquire", self.vid(), 0);
+        #[cfg(roto_verif)]
+        {
+            // tells the hook which storage object belongs to this handle
+            let raw = self.0.lock().unwrap();
+            crate::verif::sched::point("bind", self.vid(), &*raw as *const RawList as usize);
+        }
         self.0.lock().unwrap().len()
     }
 
@@ -990,7 +996,7 @@ impl RawList {
                     )
                 };
                 #[cfg(roto_verif)]
-                crate::verif::sched::point("realloc", ptr.as_ptr() as usize, new_ptr.as_ptr() as usize);
+                crate::verif::sched::point("realloc", self as *const Self as usize, new_ptr.as_ptr() as usize);
                 self.ptr = new_ptr;
             } else {
                 // SAFETY: At this point, we know that the size of the layout
